@@ -278,6 +278,21 @@ def gen_mesh(rng, size='small', types=None, features=None):
         rng.shuffle(order)
         for j, e in enumerate(order):
             groups.append([f'E{j + 1}', [e]])
+    eg = f.get('empty_group')
+    if eg == 'plain':
+        # an element group without members, among other groups
+        if not [g for g in groups if g[0] != 'ALL']:
+            groups.append(['G1', rng.sample(all_eids, rng.randint(1, len(all_eids)))])
+        groups.insert(rng.randint(0, len(groups)), ['EMPTY', []])
+    elif eg == 'fastpath' and len(all_eids) >= 2:
+        # as many groups as elements and as many members as elements, one group empty:
+        # the configuration in which write_msh takes the one-group-per-element path
+        order = list(all_eids)
+        rng.shuffle(order)
+        groups = [['PAIR', order[:2]]] + [[f'E{j + 1}', [e]] for j, e in enumerate(order[2:])]
+        rng.shuffle(groups)
+        groups.insert(rng.randint(0, len(groups)), ['EMPTY', []])
+        groups.insert(rng.choice([0, len(groups)]), ['ALL', sorted(all_eids)])
     if groups:
         mesh['egroups'] = groups
     sk = f.get('sections', rng.choice(['none', 'some', 'some']))
